@@ -322,6 +322,18 @@ def decide(pid, tier, seed, replay=None):
     if not ok:
         m = re.findall(r'File "([^"]+)", line (\d+)[^\n]*\n(Error:[^\n]*(?:\n[^\n]+){0,3})', log)
         notes.append("make failed: " + "; ".join("%s:%s %s" % (a, b, c.replace("\n", " ")[:200]) for a, b, c in m)[:1500])
+    # 1b. method bodies re-translated from the Rust source (translator/bodies.py): one lemma per state shape, checked
+    #     by the kernel against the generic model (needs the compiled models, hence after make)
+    import bodies
+    if pid in bodies.ENTRIES and not replay:
+        _, binfo = bodies.regenerate(pid, ROOT, BUILD)
+        gen_info["obligations"] = gen_info.get("obligations", 0) + binfo["obligations"]
+        gen_info["discharged"] = gen_info.get("discharged", 0) + binfo["discharged"]
+        gen_info["failed"] = gen_info.get("failed", []) + binfo["failed"]
+        gen_info["bodies"] = binfo["bodies"]
+        if binfo.get("logs"): gen_info.setdefault("logs", {}).update(binfo["logs"])
+        if binfo["failed"]:
+            notes.append("source bodies no longer translate to the model: " + "; ".join("%s: %s" % (k, " ".join(str(v).split())[:300]) for k, v in binfo.get("logs", {}).items()))
     names = theorem_names(pid)
     obligations = len(names); discharged = 0; axioms = {}
     if proof_ok:
